@@ -381,6 +381,161 @@ def real_read(text):
         return proto.N
 
 
+# --------------------------------------------------------------------------
+# XMLParser's layer over expat: the `_handle_*` callbacks, `_coalesce`; `ET()`
+
+CB_NAMES = ['a', 'b', 'u}a', 'u}a}p', '{x', 'http://www.w3.org/XML/1998/namespace}lang', 'p:a', '}', 'u}', '']
+CB_OTHER = ['&nbsp;', '&eacute;', '&foo;', '&;', '&', '<!ELEMENT a EMPTY>', '', '&amp', '&euro;', ' ', '&lt;', '&Aacute;',
+            '&aacute', 'x&nbsp;']
+
+
+def gen_cbs(rng):
+    """a callback sequence as expat might deliver it (and some it never would): wire form"""
+    out = []
+    for _ in range(rng.randrange(1, 12)):
+        r = rng.random()
+        if r < 0.2:
+            attrs = [[rng.choice(CB_NAMES), rng.choice(WILD_TXT)] for _ in range(rng.choice([0, 0, 1, 2, 3]))]
+            out.append([Atom('SE'), rng.choice(CB_NAMES), attrs])
+        elif r < 0.32:
+            out.append([Atom('EE'), rng.choice(CB_NAMES)])
+        elif r < 0.55:
+            out.append([Atom('D'), rng.choice(WILD_TXT)])
+        elif r < 0.60:
+            out.append([Atom('XD'), rng.choice(['1.0', '1.1']), rng.choice([proto.N, 'utf-8', 'latin-1']),
+                        Atom(str(rng.choice([-1, 0, 1])))])
+        elif r < 0.66:
+            out.append([Atom('DT'), rng.choice(['a', 'html', 'x:r']), rng.choice([proto.N, 'x.dtd', 'a"b']),
+                        rng.choice([proto.N, '-//X//Y', ''])])
+        elif r < 0.74:
+            out.append([Atom('NS'), rng.choice([proto.N, 'p', '', 'xml']), rng.choice([proto.N, 'u', '', 'u1'])])
+        elif r < 0.79:
+            out.append([Atom('ENS'), rng.choice([proto.N, 'p', ''])])
+        elif r < 0.84:
+            out.append(Atom('SC'))
+        elif r < 0.89:
+            out.append(Atom('EC'))
+        elif r < 0.92:
+            out.append([Atom('PI'), rng.choice(['a', 'php']), rng.choice(WILD_TXT)])
+        elif r < 0.95:
+            out.append([Atom('C'), rng.choice(WILD_TXT)])
+        else:
+            out.append([Atom('O'), rng.choice(CB_OTHER)])
+    return out
+
+
+def _un(x):
+    return None if isinstance(x, Atom) and x == 'N' else x
+
+
+def real_cbs(cbs):
+    """the real `_handle_*` methods called directly on a fresh XMLParser, its queue through the real `_coalesce`"""
+    from io import StringIO
+    from xml.parsers import expat
+    from genshi.input import XMLParser, _coalesce
+    p = XMLParser(StringIO(''))
+    ok = True
+    try:
+        for c in cbs:
+            k = str(c[0]) if isinstance(c, list) else str(c)
+            if k == 'SE':
+                p._handle_start(c[1], [x for kv in c[2] for x in kv])
+            elif k == 'EE':
+                p._handle_end(c[1])
+            elif k == 'D':
+                p._handle_data(c[1])
+            elif k == 'XD':
+                p._handle_xml_decl(c[1], _un(c[2]), int(str(c[3])))
+            elif k == 'DT':
+                p._handle_doctype(c[1], _un(c[2]), _un(c[3]), 0)
+            elif k == 'NS':
+                p._handle_start_ns(_un(c[1]), _un(c[2]))
+            elif k == 'ENS':
+                p._handle_end_ns(_un(c[1]))
+            elif k == 'SC':
+                p._handle_start_cdata()
+            elif k == 'EC':
+                p._handle_end_cdata()
+            elif k == 'PI':
+                p._handle_pi(c[1], c[2])
+            elif k == 'C':
+                p._handle_comment(c[1])
+            elif k == 'O':
+                p._handle_other(c[1])
+    except expat.error:
+        ok = False
+    return [B(ok), wire_stream(list(_coalesce(iter(p._queue))))]
+
+
+def recorded_parse(text):
+    """XML parsing with every expat callback recorded (a subclass whose `_handle_*` log their arguments and then
+    call the real method).  -> (callbacks in wire form, events | None when ParseError)"""
+    from io import StringIO
+    from genshi.input import XMLParser, ParseError
+    log = []
+
+    class Rec(XMLParser):
+        pass
+
+    def hook(name, conv):
+        orig = getattr(XMLParser, name)
+
+        def h(self, *a):
+            log.append(conv(*a))
+            return orig(self, *a)
+        setattr(Rec, name, h)
+    o = lambda x: proto.N if x is None else x
+    hook('_handle_start', lambda tag, attrib: [Atom('SE'), tag, [[attrib[i], attrib[i + 1]] for i in range(0, len(attrib) - 1, 2)]])
+    hook('_handle_end', lambda tag: [Atom('EE'), tag])
+    hook('_handle_data', lambda t: [Atom('D'), t])
+    hook('_handle_xml_decl', lambda v, e, s: [Atom('XD'), v, o(e), Atom(str(int(s)))])
+    hook('_handle_doctype', lambda n, sy, pu, internal: [Atom('DT'), n, o(sy), o(pu)])
+    hook('_handle_start_ns', lambda p, u: [Atom('NS'), o(p), o(u)])
+    hook('_handle_end_ns', lambda p: [Atom('ENS'), o(p)])
+    hook('_handle_start_cdata', lambda: Atom('SC'))
+    hook('_handle_end_cdata', lambda: Atom('EC'))
+    hook('_handle_pi', lambda t, d: [Atom('PI'), t, d])
+    hook('_handle_comment', lambda t: [Atom('C'), t])
+    hook('_handle_other', lambda t: [Atom('O'), t])
+    try:
+        events = list(Rec(StringIO(text)))
+    except ParseError:
+        events = None
+    return log, events
+
+
+def gen_etree(rng, depth=2):
+    """what ET() reads of an ElementTree element: [tag, [[k, v]...], text|None, [kids], tail|None]"""
+    tag = rng.choice(['a', '{u}a', '{{u}a', 'b', '{u1}x', '{}a', 'u}a'])
+    attrs = []
+    seen = set()
+    for _ in range(rng.choice([0, 0, 1, 2])):
+        k = rng.choice(['id', '{u}x', '{{v}y', 'class', '{http://www.w3.org/XML/1998/namespace}lang'])
+        if k not in seen:
+            seen.add(k)
+            attrs.append([k, rng.choice(WILD_TXT)])
+    kids = [gen_etree(rng, depth - 1) for _ in range(rng.randrange(0, 3))] if depth > 0 else []
+    return [tag, attrs, rng.choice([None, '', 't', 'a<b', ' ']), kids, rng.choice([None, None, '', 'tail', '\n'])]
+
+
+def real_et(tree):
+    import xml.etree.ElementTree as etree
+    from genshi.input import ET
+
+    def build(t):
+        el = etree.Element(t[0], dict((k, v) for k, v in t[1]))
+        el.text = t[2]
+        el.tail = t[4]
+        for k in t[3]:
+            el.append(build(k))
+        return el
+    return evwire.stream(list(ET(build(tree))))
+
+
+def _etree_wire(t):
+    return [t[0], t[1], proto.N if t[2] is None else t[2], [_etree_wire(k) for k in t[3]], proto.N if t[4] is None else t[4]]
+
+
 class Corr(object):
     """collects request lines and the real answers; one gdrv run per shard"""
 
@@ -414,7 +569,7 @@ class Corr(object):
             return
         self.add('read' + tag, case, proto.line(C02, Atom('read'), text), real_read(text), post=_sort_rev)
 
-    def add_reparse(self, text, case):
+    def add_reparse(self, text, case, tag=''):
         """the specification-side parse (reparseX o tokenize) against XMLParser + EmptyTagFilter"""
         from genshi.input import XML
         from genshi.output import EmptyTagFilter
@@ -422,7 +577,7 @@ class Corr(object):
             real = [Atom('ok'), [xev_wire(e) for e in EmptyTagFilter()(iter(list(XML(text))))]]
         except Exception:  # noqa
             real = proto.N
-        self.add('reparse', case, proto.line(C02, Atom('reparse'), text), real)
+        self.add('reparse' + tag, case, proto.line(C02, Atom('reparse'), text), real, post='reparse')
 
     def add_enc(self, text, enc, case, tag=''):
         self.add('encode' + tag, case, proto.line(C02, Atom('enc'), enc_ranges(enc), text), real_enc(text, enc))
@@ -490,6 +645,12 @@ class Corr(object):
                                                        'model': 'inside the text-level idempotence hypotheses (ascii) but ser(parseText(enc(ser))) != ser',
                                                        'real': 'theorem ser_idempotent_builder / ser_idempotent_parsed_text'})
                 continue
+            if post == 'reparse':
+                # third field: does `parseText` (no `<a></a>` -> `<a/>`) give the same answer as `parseSource`?
+                if isinstance(model, list) and len(model) == 3:
+                    self.res.count('%s:parseText-%s' % (stream, 'same' if str(model[2]) == 'T' else 'differs'))
+                    model = model[:2]
+                post = None
             if post:
                 model = post(model)
                 real = post(real)
@@ -694,6 +855,37 @@ def shard(arg):
             res.count('first-parse-differs-from-generating-tree')
             res.notes.append('first parse differs from the generating tree: %r' % text[:200])
         corr.add_events(events, case)
+        if i % 4 in (1, 2):
+            # the callbacks expat really makes for this document (recorded), through the model of the layer,
+            # against the events XMLParser delivers; every 8th document with an undefined entity put in
+            t2 = text
+            if i % 8 == 2:
+                t2 = text.replace('><', '>&nosuchentity;<', 1) if rng.random() < 0.5 else text.replace('</', '&zzz;</', 1)
+            log, evs = recorded_parse(t2)
+            # the foreign DTD (HTML entities) comes through `_handle_other` token by token, ~1 800 calls per
+            # document that enqueue nothing: the first 8 are sent to the model, the rest counted (the made-up
+            # sequences of stream `cbs` hold such texts too)
+            keep, nother = [], 0
+            for c in log:
+                if isinstance(c, list) and c[0] == 'O' and not c[1].startswith('&'):
+                    nother += 1
+                    if nother > 8:
+                        res.count('cbs-expat:default-handler-calls-not-sent')
+                        continue
+                keep.append(c)
+            log = keep
+            for c in log:
+                res.count('cbs-expat:callback:%s' % (str(c[0]) if isinstance(c, list) else str(c)))
+            if evs is None and not (log and isinstance(log[-1], list) and log[-1][0] == 'O' and log[-1][1].startswith('&')):
+                # expat's own verdict (e.g. an undefined entity under standalone="yes"), not the layer's
+                res.count('cbs-expat:expat-error')
+            elif evs is None:
+                res.count('cbs-expat:parse-error')
+                corr.add('cbs-expat', {'kind': 'doc', 'text': t2}, proto.line(C02, Atom('cbs'), log), Atom('F'),
+                         post=lambda a: a[0] if isinstance(a, list) else a)
+            else:
+                corr.add('cbs-expat', {'kind': 'doc', 'text': t2}, proto.line(C02, Atom('cbs'), log),
+                         [B(True), wire_stream(evs)])
         if i % 4 == 0:
             out = ''.join(_ser(events))
             texts.append(out)
@@ -722,6 +914,9 @@ def shard(arg):
         doc = gen_xml.gen_doc(rng, html_entities=False, **({'cdata_runs': 0.35} if i % 2 else {}))
         text = gen_xml.write_doc(doc)
         corr.add_text(text, {'kind': 'read', 'text': text}, tag='-source')
+        # `parseText` (the specification-side account of XMLParser + EmptyTagFilter) on source documents, not only on
+        # serializer output: single quotes, references of every spelling, declarations in any attribute position
+        corr.add_reparse(text, {'kind': 'read', 'text': text}, tag='-source')
     # accept/reject agreement of the Lean reader and expat on damaged texts.  ASCII only: the reader does not
     # carry the Unicode name tables (any non-ASCII XML character is a name character for it)
     for i in range(ndocs // 4):
@@ -801,6 +996,17 @@ def shard(arg):
                  evwire.stream(list(_coalesce(iter(events)))))
         s = rng.choice(['a', '{u}a', 'u}a', '{{u}a', '{u}a}b', '{}a', 'a{b', '}', '{', ''])
         corr.add('qname', {'kind': 'qname', 'text': s}, proto.line(C02, Atom('qname'), s), evwire.qn(QName(s)))
+    # XMLParser's layer over expat (`_handle_*`, `_coalesce`): callback sequences made up here, handed to the real
+    # methods directly; and `ET()` on made-up ElementTree elements
+    for i in range(nwild // 4):
+        cbs = gen_cbs(rng)
+        case = {'kind': 'cbs', 'cbs': _wire_json(cbs)}
+        real = real_cbs(cbs)
+        kinds = set(str(c[0]) if isinstance(c, list) else str(c) for c in cbs)
+        res.count('cbs:%s' % ('undefined-entity' if real[0] == 'F' else 'entity' if 'O' in kinds else 'plain'))
+        corr.add('cbs', case, proto.line(C02, Atom('cbs'), cbs), real)
+        t = gen_etree(rng)
+        corr.add('et', {'kind': 'et', 'tree': t}, proto.line(C02, Atom('et'), _etree_wire(t)), real_et(t))
     corr.finish()
     return res
 
